@@ -34,7 +34,7 @@ CLAIMS["C01"] = dict(
          "invalidates its 'sorted' flag; (7) GetSegmentIntersectPt, in both precision build options, stores - as a real-number formula - the "
          "crossing point of the two lines, and TopX is the x of the line through bot and top at the given y, shortcuts included (identities of "
          "polynomial normal forms, engine E14); (8) Intersect / Union / Difference / Xor / BooleanOp return what the sweep produced, never an input; (9) GetClosestPointOnSegment (the "
-         "correction used for nearly horizontal edges) is the foot of the perpendicular. "
+         "correction used for nearly horizontal edges) is the foot of the perpendicular; (10) every Execute re-arms succeeded_ before the sweep loop reads it. "
          "A wrong reachable cell is a wrong region for some input in general position; the "
          "converse (the behaviour of C01) is NOT decided.",
     note="Assumes the code's stated invariants for wind_cnt / wind_cnt2 and that AEL neighbours are the geometric neighbours. AEL ordering, "
@@ -82,7 +82,8 @@ CLAIMS["C07"] = dict(
          "MiterLimit is re-derived by every Execute before a join reads it (the join factor bound is the one of the limit in force); (vii) the join "
          "formulas (unit normal, sin/cos of the turn, miter, bevel, the squaring line of the square join, round start and rotation step, perpendicular offset) equal the textbook "
          "formulas as polynomial normal forms (engine E14) and OffsetPoint dispatches every convex vertex to the construction of its JoinType, "
-         "mitering exactly while the miter length is within the limit.",
+         "mitering exactly while the miter length is within the limit; (viii) the length below which the bisector of a square join counts as zero is "
+         "not above the shortest bisector the dispatch lets through (relation between two literals read from the code).",
     note="Stroke geometry, cap extents, circles for points are NOT decided. Stale normals passed to a delta callback (D12) are reported under C12.",
     technique="static analysis: loop-carried-state dataflow + AST rule on reads of delta + interpreted dispatch tables",
     design="§3 E2/E3, §4 C07", engine="E2")
@@ -133,7 +134,8 @@ CLAIMS["C08"] = dict(
          "domain; GetNextLocation's per-side dispatch on every ordering of the next vertex against the rectangle (first side crossed wins in the "
          "documented order); GetBounds considers every vertex for min and max; the segment scan starts at the first segment on every path; GetSegmentIntersection's touching cases store an end point that lies on both "
          "lines (engine E14) and answer 'touching' exactly when it lies strictly between the other segment's ends, whichever way the side runs "
-         "(48 cells); no point classification compares a coordinate of one axis with a bound of the other.",
+         "(48 cells); GetIntersection reports the side the segment meets first for p in every side region and every possible (entry, exit) pair "
+         "(76 cells); no point classification compares a coordinate of one axis with a bound of the other.",
     note="The location state machine, corner insertion and TidyEdges (the behaviour for crossing paths) are NOT decided.",
     technique="static analysis: abstract interpretation over orderings + loop-carried-state dataflow",
     design="§3 E3/E2, §4 C08", engine="E3")
@@ -145,7 +147,7 @@ CLAIMS["C09"] = dict(
          "exactly where the polyline enters the rectangle (all 24 location pairs; the pass-through case takes its first crossing from the far "
          "end of the segment); nothing written while clipping one polyline is read while clipping the next; the cut itself, as a real-number formula: GetSegmentIntersectPt's "
          "point lies on both lines and GetSegmentIntersection's touching cases store an end point that lies on both lines (engine E14) and answer "
-         "'touching' exactly when it lies strictly between the other segment's ends, whichever way the side runs (48 cells).",
+         "'touching' exactly when it lies strictly between the other segment's ends, whichever way the side runs (48 cells); GetIntersection reports the side met first (76 cells); GetNextLocation's table.",
     note="Partial: which rectangle edge GetIntersection tries, rounding, GetNextLocation's scan, the vertex order inside a piece and every tolerance of "
          "the statement (1.5 / 1 / 2 units) are NOT decided - the numeric content of C09 is out of reach of static analysis here.",
     technique="static analysis: abstract interpretation over orderings and the Location enum + loop-carried-state dataflow",
@@ -159,7 +161,8 @@ CLAIMS["C13"] = dict(
          "x/y locals read mirrored coordinates (transposition); no signed 64-bit products, no single-precision floating point (integer scaling); "
          "the cross-product predicates and the segment intersection are the textbook polynomials (engine E14), hence equivariant under "
          "translation, transposition and scaling as real-number formulas; the boolean convenience functions never hand a path parameter back as the result; every precision parameter "
-         "reaches the scale / the ClipperD it is meant for (translation and integer scaling of decimal data).",
+         "reaches the scale / the ClipperD it is meant for (translation and integer scaling of decimal data); AddPaths_ carries no local from one "
+         "path of a call to the next (path order).",
     note="Permutation/rotation invariance of the sweep (IsValidAelOrder tie-breaking) and the algebraic identities are NOT decided.",
     technique="static analysis: table symmetries on the abstractly interpreted decision function + comparator axioms by exhaustive interpretation",
     design="§3 E3, §4 C13", engine="E3")
@@ -182,7 +185,7 @@ CLAIMS["C18"] = dict(
          "floating-point expression in CrossProductSign / ProductsAreEqual / IsCollinear / TriSign / Multiply and products only in 128 bits; the "
          "portable sign logic equals sign(sign_ab*|ab| - sign_cd*|cd|) on every consistent cell; Multiply's partial sums cannot wrap (interval proof that follows branches and refines the operand intervals by their guards); "
          "no signed 64-bit product and no single-precision floating point anywhere; PointInPolygon's wrap-around predecessor is the container's last "
-         "vertex on all reaching definitions; twin x/y locals (incl. the HI_PRECISION GetSegmentIntersectPt) read mirrored coordinates; "
+         "vertex on all reaching definitions and every cross product deciding a toggle is first tested for zero (IsOn); twin x/y locals (incl. the HI_PRECISION GetSegmentIntersectPt) read mirrored coordinates; "
          "engine E14 (identities of polynomial normal forms): the two compared products of CrossProductSign / IsCollinear / ProductsAreEqual differ by "
          "exactly the cross product, on both code paths (portable: magnitudes and signs of the same factors), the 128-bit tails return sign(ab-cd) / "
          "(ab==cd) on every ordering and no 128-bit value is narrowed; GetSegmentIntersectPt's result lies on both lines and 'parallel' is answered by an exact test of the "
@@ -209,7 +212,8 @@ CLAIMS["C04"] = dict(
          "polypath, OutPt::outrec), callees included (effect confinement; one reasoned exception). Path1InsidePath2's vertex vote (step and verdict for every count: a lead of two is decisive, only an equivocal count uses the "
          "bounding-box midpoint); OutRec::splits lists only grow (never overwritten); Rect::Contains, the owner search's pre-filter, is closed "
          "inclusion on every ordering; the builders' index loops over outrec_list_ re-read its size (rings split off while building are emitted in both modes); whatever GetPrevHotEdge returns, the ring's tentative owner is "
-         "assigned (SetOwner, or nullptr) on every path on which tree output is possible.",
+         "assigned (SetOwner, or nullptr) on every path on which tree output is possible; PointInOpPolygon reports a vertex on an edge as IsOn "
+         "wherever a cross product decides a toggle.",
     note="That the owners are right (containment, depth alternation, area equality) is NOT decided.",
     technique="static analysis: effect confinement of option-controlled regions + pipeline identity",
     design="§3 E10, §4 C04", engine="E10")
@@ -235,7 +239,7 @@ CLAIMS["C20"] = dict(
     text="Static decision of necessary clauses: TrimCollinear, SimplifyPath, RamerDouglasPeucker and StripNearEqual append only elements of the "
          "input (never a computed vertex), inside loops through forward-only cursors; keep/remove flags are monotone; StripDuplicates only erases; "
          "TrimCollinear's corner test is made against the last kept vertex; SimplifyPath's pinned end distances are never overwritten; every "
-         "distance/epsilon comparison of SimplifyPath and RDP draws the line at 'removable iff distance <= epsilon'; GetBounds' min/max update table and sentinels (a maximum starts at lowest(), not at the smallest positive value); every argument bound to an epsilon / squared-epsilon parameter has that degree; Ellipse and TranslatePath "
+         "distance/epsilon comparison of SimplifyPath and RDP draws the line at 'removable iff distance <= epsilon'; GetBounds' min/max update table and sentinels (a maximum starts at lowest(), not at the smallest positive value); every argument bound to an epsilon / squared-epsilon parameter has that degree; RDP examines each sub-span exactly when it has an interior vertex; Ellipse and TranslatePath "
          "satisfy their defining formulas; "
          "PerpendicDistFromLineSqrd, DistanceSqr and IsCollinear are their defining polynomials (engine E14). "
          "The one flag-clearing site (RDP) is a genuine defect recorded as a known finding (D11).",
